@@ -50,49 +50,52 @@ Proof. exact generate_fuel. Qed.
 Print Assumptions c11_generate_never_out_of_fuel.
 
 (* every relationship end and the described id is the id of a package of the
-   document — for installed sets none of whose apks carries an embedded SBOM *)
-Theorem c11_refs_resolve : forall perm g d, NoEmbedded g -> generate perm g = Ok d -> RefsResolve d.
-Proof. exact generate_plain_refs. Qed.
+   document — for every installed set, every embedded relationship graph (chains,
+   cycles, File- relationships, elements shared between apks, elements that arrived
+   earlier through another apk's SBOM) and every map order, provided each embedded
+   document Generate uses describes at most one element carrying its apk's name.
+   (After fix 494ce81; before it this needed the target id to be new to the
+   document, see c11_replace_self_fixed.) *)
+Theorem c11_refs_resolve : forall perm g d, (forall l, Permutation (perm l) l) -> SingleTarget g ->
+  generate perm g = Ok d -> RefsResolve d.
+Proof. exact generate_refs_single. Qed.
 Print Assumptions c11_refs_resolve.
 
-(* FULL STATEMENT (false): forall perm g d, generate perm g = Ok d -> RefsResolve d.
-   Refuted with embedded SBOMs that are themselves well-formed and give every
-   apk exactly one target: the first package carrying the apk's name already is
-   the imported element, replacePackage(id, id) deletes it, references dangle
-   (finding C11-F2; the witness is replayed on the real code by the harness
-   corpus, class corpus/replace-self).
-   MISSING from the partial above: documents with embedded SBOMs; the per-apk step
-   is proved below (c11_refs_resolve_embedded_step_partial). *)
-Theorem c11_replace_self_refuted : exists g d,
-  (forall k e, In (k, FDoc e) (g_fs g) -> RefsResolve e /\ IdsUnique e /\ Forall ValidId (ids e)) /\
-  (forall a, In a (g_apks g) -> forall e, locate (g_fs g) (candidates (a_name a) (a_version a)) = Some (FDoc e) ->
-     List.length (targets (a_name a) e) = 1%nat) /\
-  generate (fun l => l) g = Ok d /\ ~ RefsResolve d /\
-  In (p_id bar_elem) (List.map r_related (d_rels d)) /\ ~ In (p_id bar_elem) (ids d).
-Proof. exact replace_self_refuted. Qed.
-Print Assumptions c11_replace_self_refuted.
+(* the special case the design names: no embedded SBOMs at all, any [perm] *)
+Theorem c11_refs_resolve_no_embedded : forall perm g d, NoEmbedded g -> generate perm g = Ok d -> RefsResolve d.
+Proof. exact generate_plain_refs. Qed.
+Print Assumptions c11_refs_resolve_no_embedded.
 
-(* the strongest statement proved WITH embedded SBOMs: one apk's
-   ProcessInternalApkSBOM step keeps every reference resolved when the embedded
-   document yields at most one target, that target is not yet an id of the
-   document ("ids disjoint from the document's"), and the document already holds
-   an element with the apk's name (Generate has just appended it) — for every
-   embedded relationship graph (chains, cycles, File- relationships) and every
-   map order.  The closure computed by copySBOMElements is closed under the
-   copied relationships and every id in it has a package, or Generate fails.
-   MISSING: the induction over the apk list that lifts this step to Generate
-   under a static disjointness hypothesis (see notes/C11.md). *)
-Theorem c11_refs_resolve_embedded_step_partial : forall perm fs d pname pversion e d',
+(* the per-apk step behind it *)
+Theorem c11_refs_resolve_step : forall perm fs d pname pversion e d',
   RefsResolve d -> (List.length (d_desc d) <= 1)%nat ->
   locate fs (candidates pname pversion) = Some (FDoc e) ->
   (List.length (targets pname e) <= 1)%nat ->
   (forall l, Permutation (perm l) l) ->
-  (forall t, In t (targets pname e) -> ~ In t (ids d)) ->
-  (exists p, In p (d_pkgs d) /\ p_name p = pname) ->
   process_internal perm fs d pname pversion = Ok d' ->
   RefsResolve d' /\ List.length (d_desc d') = List.length (d_desc d).
 Proof. exact process_internal_refs. Qed.
-Print Assumptions c11_refs_resolve_embedded_step_partial.
+Print Assumptions c11_refs_resolve_step.
+
+(* FULL STATEMENT (false): forall perm g d, Permutation.. -> generate perm g = Ok d -> RefsResolve d.
+   Refuted by a well-formed embedded SBOM that describes THREE elements carrying
+   the apk's name: in the map order third, second, first the last iteration of the
+   replace loop renames references to an element the second iteration removed
+   (finding C11-F3, tag dangling-ref/replace-loop-three-targets; replayed on the
+   real code by the harness corpus, class corpus/three-targets).  So SingleTarget
+   can be weakened to "at most two" at best; that is not proved. *)
+Theorem c11_replace_loop_refuted : exists g d,
+  (forall k e, In (k, FDoc e) (g_fs g) -> RefsResolve e /\ IdsUnique e /\ Forall ValidId (ids e)) /\
+  Permutation (@rev string (targets "foo" three_sbom)) (targets "foo" three_sbom) /\
+  generate (@rev string) g = Ok d /\ ~ RefsResolve d.
+Proof. exact replace_loop_refuted. Qed.
+Print Assumptions c11_replace_loop_refuted.
+
+(* the defect repaired by 494ce81 (replacePackage(id, id) deleted an element that
+   had arrived earlier through another apk's SBOM): its replay now resolves *)
+Theorem c11_replace_self_fixed : exists d, generate (fun l => l) replace_self_witness = Ok d /\ RefsResolve d.
+Proof. exact replace_self_fixed. Qed.
+Print Assumptions c11_replace_self_fixed.
 
 (* without embedded SBOMs, and provided no two of the identifiers Generate mints
    (image, layers, source, one per installed "name-version") coincide, the
@@ -166,3 +169,10 @@ Example c11_example_embedded : exists d,
     g_fs := [("foo-1.0.spdx.json", FDoc foo_sbom)] |} = Ok d /\
   RefsResolve d /\ ids d = ["SPDXRef-Package-sha256-ab"; "SPDXRef-Package-sha256-c1"; p_id foo_elem; p_id bar_elem].
 Proof. eexists. split; [vm_compute; reflexivity|]. split; [apply refs_resolve_b_iff; vm_compute; reflexivity | reflexivity]. Qed.
+
+(* the envelope of c11_refs_resolve is inhabited by that input *)
+Example c11_example_single_target :
+  SingleTarget {| g_image := "sha256:ab"; g_layers := [("sha256", "c1")]; g_osver := "1"; g_vcs := "";
+                  g_apks := [ {| a_name := "foo"; a_version := "1.0-r0"; a_sum := [1]%N |} ];
+                  g_fs := [("foo-1.0.spdx.json", FDoc foo_sbom)] |}.
+Proof. intros a [<-|[]] e H. vm_compute in H. inversion H; subst. vm_compute. repeat constructor. Qed.
